@@ -33,6 +33,12 @@ def main():
     r = runner.explore("harness.fam_nbmerge", F.use_shards(t, (PROP,), kn), nproc=common.nproc(),
                        budget_s=400 if t == "quick" else 3000)
     chk.add("use-strategies", r)
+    if "F24" in known:
+        w = runner.explore_inline(F.make_use(templates=("codeL",), mode="merge", acts="ACTS_F24", ids=(0,),
+                                             props=(PROP,), known=()), max_violations=1)
+        if w.violations:
+            chk.known_finding("F24", "use-* strategy, one side appends a line, the other drops the final newline: "
+                              "merged source contains the glued line %s" % str(w.violations[0]["info"])[:80])
     chk.bounds["use-strategies"] = (
         "one-cell bases (4 templates quick / 14 thorough) x local x remote actions (8 quick / 17 thorough) and "
         "insertion combinations, two-cell base(s); x {use-base, use-local, use-remote} x transients on/off x ids on/off; "
